@@ -27,8 +27,10 @@ RULE = ('case = (victim program, scenario, n): a child process (/venv/bin/python
         'aiuti/filelock.py (n = 0: the parent kills it once it is blocked behind the survivor); scenarios: alone / a '
         'surviving process holds the lock all the time / a surviving process waits in a blocking acquire.  The victim logs '
         'every completed primitive (thread-lock acquire/release, open, flock, close, sleep) and API-call start to an '
-        'O_APPEND file; after waitpid the parent takes a fresh non-blocking acquire (probe1), lets the survivor release, '
-        'and probes again.  The model runs the victim for exactly the logged number of steps (ops and results must match), '
+        'O_APPEND file; the parent detects the death WITHOUT reaping (waitid WNOWAIT), takes a fresh non-blocking acquire '
+        'while the victim is still a zombie and again after waitpid (probe1 = both), lets the survivor release, and '
+        'probes again.  Programs *_helper: the holder starts a long-lived helper process (close_fds=False) as soon as it '
+        'is inside; "blocked behind the survivor" is read from /proc/<pid>/syscall (flock), not from elapsed time.  The model runs the victim for exactly the logged number of steps (ops and results must match), '
         'applies ECrash, and predicts waiter success and both probes.  quick: every 3rd..4th crash point of every '
         '(program, scenario) with a seed-dependent offset; thorough: every crash point.  non-trivial = the victim really '
         'died and had completed at least two primitives.')
